@@ -288,6 +288,10 @@ pub enum Twin {
     Cancel,
     /// C15: executions with partial / pending transport answers vs. the unfragmented run
     Fragment,
+    /// C15: an operation dropped at a pending write that follows a partial write of the same packet vs.
+    /// the same program in which that write is pending straight away (and the operation dropped there):
+    /// the two differ only in how much of the packet the transport had taken before it stalled
+    DropAtWrite,
 }
 
 impl Cfg {
